@@ -77,6 +77,9 @@ func c13Size(r *fw.Rand, mtu int) int {
 // GenOBUs draws an OBU sequence.
 func c13OBUs(r *fw.Rand, mtu int) []ref.OBU {
 	n := r.Range(1, 8)
+	if r.Chance(1, 100) {
+		n = r.Pick(9, 31, 32, 33, 34, 64, 65, 100, 200) // temporal units with very many OBUs (tile groups, metadata)
+	}
 	layered := r.Intn(3) // 0: no extension headers, 1: mixed, 2: runs of distinct layer ids
 	var out []ref.OBU
 	tid, sid := uint8(r.Intn(8)), uint8(r.Intn(4))
